@@ -175,15 +175,6 @@ static inline void cross_in(nzc* cells, const int* fi, const R* fv) { CROSS_CELL
 static inline void cross_out(const nzc* cells, int* fi, R* fv) { CROSS_CELLS(CELL_OUT) }
 #define INIT_VIEW(pool, i, mem, size) pool[i].elem0 = mem; pool[i].size0 = size; pool[i].vno = (i);
 
-static inline void set_own_dims(H& h, int n)
-{
-#ifdef NEWROW
-   h.sh.nr = n; h.sh.left.dimen = n; h.sh.right.dimen = n; h.sh.robj.dimen = n; h.LPRowSetBase<R>::scaleExp.thesize = n;
-#else
-   h.sh.nc = n; h.sh.up.dimen = n; h.sh.low.dimen = n; h.sh.obj.dimen = n; h.LPColSetBase<R>::scaleExp.thesize = n;
-#endif
-}
-
 /* om/os: own file (CAPO vectors of WO cells), xm/xs: cross file (CAPX vectors of WX cells); a, b, o: dense data of the own set
  * (rows: lhs, rhs, row objective; columns: upper, lower, objective); cnt = newCols / newRows; E = exponents computeScaleExp returns */
 extern "C" void w_add(int* om_i, R* om_v, int* os, int* xm_i, R* xm_v, int* xs, R* a, R* b, R* o, int* ownexp, int* crossexp,
@@ -215,13 +206,6 @@ extern "C" void w_add(int* om_i, R* om_v, int* os, int* xm_i, R* xm_v, int* xs, 
    cntarr.data = cnt; cntarr.thesize = ncross; cntarr.themax = ncross;
    h.cnt_ = &cntarr; h.oldOwn_ = nown0; h.oldCross_ = ncross; h.scale = scale;
    gp_E = E;
-   /* ONE call of the region, written as a case split over the (small) numbers of own vectors so that CBMC's constant propagation
-      sees concrete loop bounds and vector numbers in each case: in every branch the dimensions are re-assigned as the literals the
-      branch condition says they equal; the branches cover 0 <= nown0 <= nown <= CAPO completely (the last one is unreachable) */
-#define RUN(N, N0) else if(nown == (N) && nown0 == (N0)) { set_own_dims(h, (N)); h.oldOwn_ = (N0); h.body(); }
-   if(0) {}
-   RUN(0, 0) RUN(1, 0) RUN(1, 1) RUN(2, 0) RUN(2, 1) RUN(2, 2)
-   IF_CAPO3(RUN(3, 0) RUN(3, 1) RUN(3, 2) RUN(3, 3))
-   else __CPROVER_assert(0, "case split over the own dimensions is complete");
+   h.body();
    own_out(ocells, om_i, om_v); cross_out(xcells, xm_i, xm_v);
 }
